@@ -531,10 +531,13 @@ def run(ctx: core.Context) -> int:
         ctx,
         LEVEL,
         rule=(
-            'params: (client, server) x (mtu, mps, max_credits) with <= 2 of 6 parameters off default for LE CoC without shim and <= 1 for the other '
-            '8 (kind, shim) pairs, x every write-size sequence up to the stated length over {1, mps-3..mps, mtu-1, mtu, mtu+1, 2mtu+1} in both '
-            'directions at once; distinct = (kind, shim, parameters, write sizes, style). sched: all order-preserving delivery delays with <= d '
-            'deviations during the transfer; distinct = (schedule prefix, choice fingerprints).'
+            'params: one fresh two-device world per case; (client, server) x (mtu, mps, max_credits) from {23,24,100,2048,65535} x {23,24,64,2046,2048,65533} x '
+            '{1,2,3,256,65535} with <= 2 of the 6 parameters off default for LE CoC without shim and <= 1 for the other 8 (kind in LE CoC / enhanced x1 / '
+            'enhanced x2, CID shim in off / client / server) pairs, x every write-size sequence up to the tier length over '
+            '{1, mps-3, mps-2, mps-1, mps, mtu-1, mtu, mtu+1, 2mtu+1} (receiver\'s mtu/mps) in both directions at once, x write style (yield / burst / drain '
+            'between writes); distinct = (kind, shim, parameters, write sizes, style). sched: credit-starved transfers, every order-preserving delivery delay '
+            'with <= d deviations during the transfer. early: the server writes from its connection handler, schedules with <= d deviations from the '
+            'connection request on; distinct = (schedule prefix, choice fingerprints); outcomes = distinct wire traces.'
         ),
         assumptions=[
             'both ends are bumble; the CID shim only renames identifiers',
